@@ -10,6 +10,8 @@
 From Coq Require Import List Bool Arith Lia Permutation.
 From QV Require Import Base.Mat C01.Model C01.Spec C01.Lib C01.ProofsMat C01.ProofsRun C01.ProofsDM
   C01.ProofsRunDM C01.ProofsQueue C01.ProofsSV C01.ProofsCtrl Base.Sem Base.SemPtrace Base.SemProps.
+From Coq Require Import Sorted.
+From QV Require Import C01.ProofsFused.
 From QV Require Import Base.Trace C07.Model C07.Proofs C07.ProofsFuse.
 Import ListNotations.
 
@@ -73,6 +75,87 @@ Section InstMat.
     intros Hv. pose proof (fuse_equiv_proof n c k) as Ht.
     apply (circ_op_respects (gsupp n)); auto.
     eapply Permutation_Forall; [|exact Hv]. apply Permutation_sym. apply (teq_perm _ _ _ Ht).
+  Qed.
+
+  (* ---------------------------------------------------------------- the fused queue as C01 executes it *)
+  (* the output of fuse as a C01 queue: a group becomes FusedGate(target_qubits, members), which C01
+     executes through its model of the backend's matrix_fused (product of the members' matrices,
+     each embedded into the group's qubits, later members on the left, starting from eye) *)
+  Definition to_qitems (its : list item) : list (qitem (T:=T)) :=
+    map (fun it => match it with
+                   | ISingle g => QGate (mg g)
+                   | IGroup qs gs => QFused qs (map mg gs)
+                   end) its.
+
+  Lemma flatten_to_qitems its : ProofsQueue.flatten (to_qitems its) = map mg (Model.flatten its).
+  Proof.
+    unfold ProofsQueue.flatten, Model.flatten, to_qitems.
+    induction its as [|it its IH]; simpl; auto. rewrite map_app, IH. destruct it; reflexivity.
+  Qed.
+
+  Lemma ssorted_incr_from lo l : ssorted l -> (forall x, In x l -> lo <= x) -> incr_from lo l.
+  Proof.
+    unfold ssorted. intros H. revert lo. induction H as [|a l Hs IH Hf]; intros lo Hlo; simpl; auto.
+    split; [apply Hlo; left; auto|]. apply IH. intros x Hx. rewrite Forall_forall in Hf.
+    apply Hf in Hx. lia.
+  Qed.
+
+  (* what is asked of every letter of the circuit: its matrix gate is well formed, acts inside the
+     letter's support, its matrix has the size the backend's reshape demands, qubits in range *)
+  Definition mgood (g : Trace.gate) : Prop :=
+    mvalid (gsupp n) g /\ gate_shape_ok (mg g) /\ (forall q, In q (gqs g) -> q < n).
+
+  Lemma fused_items_ok c k : Forall mgood c -> Forall (item_ok n) (to_qitems (fuse_model n c k)).
+  Proof.
+    intros Hc. rewrite Forall_forall in Hc.
+    assert (forall g, In g (Model.flatten (fuse_model n c k)) -> In g c) as Hin.
+    { intros g. apply (teq_in _ _ _ g (fuse_equiv_proof n c k)). }
+    apply Forall_forall. intros qi Hqi. unfold to_qitems in Hqi. apply in_map_iff in Hqi.
+    destruct Hqi as [it [<- Hit]]. destruct it as [g|qs gs]; simpl.
+    - assert (In g c) as Hg by (apply Hin; unfold Model.flatten; apply in_flat_map; exists (ISingle g); simpl; auto).
+      destruct (Hc g Hg) as [[Hw _] [Hs _]]. auto.
+    - destruct (fuse_groups_proof n c k qs gs Hit) as [Hall _].
+      destruct (fuse_groups_sorted_range n c k qs gs) as [Hsort Hrange]; auto.
+      { intros g q Hg Hq. destruct (Hc g Hg) as [_ [_ Hr]]. auto. }
+      split; [apply ssorted_incr_from; auto; intros; lia|]. split; auto.
+      apply Forall_forall. intros mgate Hm. apply in_map_iff in Hm. destruct Hm as [g [<- Hg]].
+      assert (In g c) as Hgc by (apply Hin; unfold Model.flatten; apply in_flat_map; exists (IGroup qs gs); simpl; auto).
+      destruct (Hc g Hgc) as [[Hw Hsup] [Hs _]]. destruct (Hall g Hg) as [Ho Hincl].
+      split; auto. split; auto. intros q Hq. apply Hincl. apply Hsup in Hq.
+      rewrite ord_gsupp in Hq; auto.
+  Qed.
+
+  (* executing the fused queue the way the backend does (matrix_fused per group) gives the state
+     vector of the original circuit *)
+  Theorem fused_execution_proof c k v : Forall mgood c -> length v = 2 ^ n ->
+    execute_queue K n (to_qitems (fuse_model n c k)) v = execute K n (map mg c) v.
+  Proof.
+    intros Hc Hv.
+    assert (Forall (mvalid (gsupp n)) c) as Hval.
+    { eapply Forall_impl; [|exact Hc]. intros g Hg. apply Hg. }
+    assert (Forall (gate_wf n) (map mg c)) as Hwf.
+    { apply Forall_forall. intros x Hx. apply in_map_iff in Hx. destruct Hx as [g [<- Hg]].
+      rewrite Forall_forall in Hval. apply (Hval g Hg). }
+    rewrite (execute_queue_flatten K HK) by (auto using fused_items_ok).
+    rewrite flatten_to_qitems.
+    rewrite (execute_eq K HK n (map mg c) v Hwf Hv).
+    rewrite <- (fuse_equiv_matrices_proof c k Hval).
+    apply (execute_eq K HK); auto.
+    apply Forall_forall. intros x Hx. apply in_map_iff in Hx. destruct Hx as [g [<- Hg]].
+    rewrite Forall_forall in Hval. apply (Hval g).
+    apply (teq_in _ _ _ g (fuse_equiv_proof n c k)). exact Hg.
+  Qed.
+
+  (* the matrix of every fused group, embedded on the group's qubits, is the ordered product of
+     its members' operators (C01.fused_gate_ok) *)
+  Theorem fused_group_matrix_proof c k qs gs : Forall mgood c -> In (IGroup qs gs) (fuse_model n c k) ->
+    embed K n qs (matrix_fused K qs (map mg gs)) = circ_op K n (map mg gs).
+  Proof.
+    intros Hc Hit. pose proof (fused_items_ok c k Hc) as Hok. rewrite Forall_forall in Hok.
+    specialize (Hok (QFused qs (map mg gs))). simpl in Hok.
+    destruct Hok as [H1 [H2 H3]].
+    { unfold to_qitems. apply in_map_iff. exists (IGroup qs gs). auto. }
+    apply (embed_matrix_fused K HK); auto.
   Qed.
 
   (* ---------------------------------------------------------------- density matrices, light cone *)
@@ -149,4 +232,280 @@ Section InstMat.
     - intros g Hg. split; [apply Hd; auto|]. split; [apply Hu; auto|].
       apply (lc_dropped_off_S c S g Hg).
   Qed.
+
+  (* ---------------------------------------------------------------- the re-indexed light-cone circuit *)
+  (* Circuit.light_cone returns gate.on_qubits(qubit_map) with qubit_map[q] = position of q in
+     sorted(cone); on C01 gates that is ProofsQueue.relabel cone (index_of = that position). *)
+  Lemma lc_cone_range c S q : In q (lc_cone c S) -> In q S \/ exists g, In g c /\ In q (gqs g).
+  Proof.
+    induction c as [|g c IH]; intros Hq.
+    - left. unfold lc_cone in Hq. rewrite lc_sweep_nil in Hq. simpl in Hq. now apply sort_set_In.
+    - rewrite lc_cone_cons in Hq. destruct (disjointb (gqs g) (lc_cone c S)).
+      + destruct (IH Hq) as [H|[g0 [H1 H2]]]; auto. right. exists g0. split; [right|]; auto.
+      + apply sunion_In in Hq. destruct Hq as [Hq|Hq].
+        * destruct (IH Hq) as [H|[g0 [H1 H2]]]; auto. right. exists g0. split; [right|]; auto.
+        * right. exists g. split; [left|]; auto.
+  Qed.
+
+  Lemma model_index_of_is_position q l : In q l -> Model.index_of q l = Some (C01.Model.index_of q l).
+  Proof.
+    induction l as [|x l IH]; intros H; [inversion H|]. simpl.
+    destruct (x =? q) eqn:E; auto. destruct H as [->|H]; [rewrite Nat.eqb_refl in E; discriminate|].
+    rewrite (IH H). reflexivity.
+  Qed.
+
+  Lemma circ_op_embedded fq gs :
+    incr_from 0 fq -> (forall q, In q fq -> q < n) ->
+    (forall g, In g gs -> forall q, In q (gate_qubits g) -> In q fq) ->
+    circ_op K n gs = embed K n fq (circ_op K (length fq) (map (relabel fq) gs)).
+  Proof.
+    intros Hfq Hq Hsub. pose proof (incr_from_NoDup 0 fq Hfq) as Hn.
+    unfold circ_op. rewrite <- (embed_eye K n fq Hn Hq), (eye_midentity K (length fq)).
+    assert (W : wf_mat (length fq) (midentity K (length fq))) by (rewrite midentity_tab2; apply tab2_wf).
+    revert W. generalize (midentity K (length fq)).
+    induction gs as [|g gs IH]; intros A HA; [reflexivity|]. simpl.
+    rewrite <- (embed_gate_op K n fq g Hfq Hq) by (apply Hsub; left; auto).
+    rewrite <- (ProofsQueue.embed_mmul K HK) by (auto using (gate_op_wf K)).
+    apply IH.
+    - intros g0 Hg0. apply Hsub. right; auto.
+    - apply (mmul_wf K HK); auto using (gate_op_wf K).
+  Qed.
+
+  (* operator of the kept gates on n qubits = operator of the RE-INDEXED light-cone circuit (on
+     |cone| qubits, qubit_map = position in sorted cone) embedded on the cone qubits *)
+  Theorem kept_op_is_embedded_cone_circuit_proof c S :
+    Forall (mvalid gqs) c -> (forall q, In q S -> q < n) ->
+    (forall g q, In g c -> In q (gqs g) -> q < n) ->
+    circ_op K n (map mg (lc_kept c S))
+    = embed K n (lc_cone c S)
+        (circ_op K (length (lc_cone c S)) (map (fun g => relabel (lc_cone c S) (mg g)) (lc_kept c S))).
+  Proof.
+    intros Hv HS Hc.
+    rewrite <- (map_map mg (relabel (lc_cone c S)) (lc_kept c S)).
+    apply circ_op_embedded.
+    - apply ssorted_incr_from; [apply lc_cone_sorted|intros; lia].
+    - intros q Hq. destruct (lc_cone_range c S q Hq) as [H|[g [H1 H2]]]; eauto.
+    - intros g0 Hg0 q Hq. apply in_map_iff in Hg0. destruct Hg0 as [g [<- Hg]].
+      apply (lc_kept_in_cone c S g Hg). rewrite Forall_forall in Hv.
+      apply (Hv g (lc_kept_sub c S g Hg)). exact Hq.
+  Qed.
 End InstMat.
+
+(* ================================================================ partial trace and operators on the kept qubits *)
+Section PtraceKept.
+  Context {T : Type} (K : ops T) (cj : T -> T).
+  Hypothesis HK : semiring K.
+  Hypothesis HC : conj_ok K cj.
+  Local Notation tsum := (tsum K).
+  Local Notation zero := (zero K).
+
+  Lemma mul_zero_r c : mul K c zero = zero.
+  Proof. rewrite (sr_mul_comm K HK). apply (sr_mul_0_l K HK). Qed.
+
+  Lemma if_mul (b : bool) c y : (if b then mul K c y else zero) = mul K c (if b then y else zero).
+  Proof. destruct b; auto. now rewrite mul_zero_r. Qed.
+
+  Lemma upd_upd_same qs s s' x : upd qs s' (upd qs s x) = upd qs s' x.
+  Proof.
+    apply bool_list_ext; [now rewrite !upd_length|]. intros i Hi. rewrite !upd_length in Hi.
+    rewrite !nth_upd by (rewrite ?upd_length; assumption).
+    destruct (C01.Model.memb i qs); reflexivity.
+  Qed.
+
+  (* sum over the strings that read a on fq of F(string with s written on fq)
+     = sum of F over the strings that read s on fq *)
+  Lemma restrict_shift n fq (F : list bool -> T) a s :
+    NoDup fq -> (forall q, In q fq -> q < n) -> length a = length fq -> length s = length fq ->
+    tsum (map (fun x => if beqb (sel fq x) a then F (upd fq s x) else zero) (allbits n))
+    = tsum (map (fun y => if beqb (sel fq y) s then F y else zero) (allbits n)).
+  Proof.
+    intros Hn Hq Ha Hs.
+    transitivity (tsum (map (fun x => tsum (map (fun t =>
+        (fun x t => if beqb (sel fq x) a then (if beqb s t then F (upd fq t x) else zero) else zero) x t)
+        (allbits (length fq)))) (allbits n))).
+    - apply tsum_map_ext. intros x _. cbv beta. destruct (beqb (sel fq x) a).
+      + symmetry. apply (tsum_delta K HK (length fq) (fun t => F (upd fq t x)) s Hs).
+      + symmetry. apply (tsum_zero K HK).
+    - rewrite (bits_swap_sum K HK n fq _ Hn Hq). cbv beta.
+      apply tsum_map_ext. intros x Hx. apply allbits_In in Hx.
+      rewrite (tsum_map_ext K _ (fun t => if beqb a t then (if beqb (sel fq x) s then F x else zero) else zero)).
+      + apply (tsum_delta K HK (length fq) (fun _ => if beqb (sel fq x) s then F x else zero) a Ha).
+      + intros t Ht. apply allbits_In in Ht.
+        rewrite sel_upd_same by (auto; intros q Hq'; rewrite Hx; auto).
+        rewrite upd_upd_sel. rewrite (beqb_sym t a), (beqb_sym s (sel fq x)). reflexivity.
+  Qed.
+
+  (* Tr_rest[(V (x) 1) rho (V (x) 1)^+] = V Tr_rest[rho] V^+ : an operator embedded on exactly the kept
+     qubits commutes with the partial trace over the others (no unitarity needed) *)
+  Theorem reduced_embed_kept n fq V rho :
+    NoDup fq -> (forall q, In q fq -> q < n) -> wf_mat (length fq) V -> wf_mat n rho ->
+    reduced K n fq (sandwich K cj n (embed K n fq V) rho)
+    = sandwich K cj (length fq) V (reduced K n fq rho).
+  Proof.
+    intros Hn Hq HV Hr.
+    rewrite (wf_tab2 K n rho Hr). generalize (mentry K rho). intros g.
+    change (embed K n fq V) with (cembed K n [] fq V).
+    rewrite (sandwich_cembed K cj HK HC) by assumption.
+    replace (sandwich K cj (length fq) V (reduced K n fq (tab2 n g)))
+      with (sandwich K cj (length fq) (tab2 (length fq) (mentry K V)) (reduced K n fq (tab2 n g)))
+      by (now rewrite <- (wf_tab2 K (length fq) V HV)).
+    unfold reduced. rewrite (sandwich_tab2 K cj HK). apply tab2_ext. intros a a' Ha Ha'.
+    set (G := fun s s' x => g (upd fq s x) (upd fq s' x)).
+    set (B := fun x => beqb (sel fq x) a).
+    (* left side *)
+    transitivity (tsum (map (fun s => mul K (mentry K V a s)
+        (tsum (map (fun s' => mul K (tsum (map (fun x => if B x then G s s' x else zero) (allbits n)))
+                                   (cj (mentry K V a' s'))) (allbits (length fq))))) (allbits (length fq)))).
+    - rewrite (tsum_map_ext K _ (fun x => tsum (map (fun s =>
+          (fun x s => if B x then mul K (mentry K V a s)
+                         (tsum (map (fun s' => mul K (cj (mentry K V a' s')) (G s s' x)) (allbits (length fq))))
+                      else zero) x s) (allbits (length fq))))).
+      2:{ intros x Hx. apply allbits_In in Hx. cbv beta. unfold B.
+          destruct (beqb (sel fq x) a) eqn:E; [|symmetry; apply (tsum_zero K HK)].
+          apply beqb_eq in E.
+          rewrite (mentry_tab2 K) by (now rewrite ?upd_length).
+          unfold dm_action, dm_inner. cbn [sel map all1 forallb]. cbv beta.
+          apply tsum_map_ext. intros s Hs. apply allbits_In in Hs. unfold mentry. rewrite E. f_equal.
+          apply tsum_map_ext. intros s' Hs'. apply allbits_In in Hs'.
+          rewrite sel_upd_same by (auto; intros q Hq'; rewrite Hx; auto).
+          unfold G. now rewrite upd_upd_same. }
+      rewrite (tsum_swap K HK). cbv beta.
+      apply tsum_map_ext. intros s _.
+      rewrite (tsum_map_ext K _ (fun x => mul K (mentry K V a s)
+          (if B x then tsum (map (fun s' => mul K (cj (mentry K V a' s')) (G s s' x)) (allbits (length fq))) else zero)))
+        by (intros x _; apply if_mul).
+      rewrite (tsum_scale_l K HK). f_equal.
+      rewrite (tsum_map_ext K _ (fun x => tsum (map (fun s' =>
+          (fun x s' => if B x then mul K (cj (mentry K V a' s')) (G s s' x) else zero) x s') (allbits (length fq))))).
+      2:{ intros x _. cbv beta. destruct (B x); [reflexivity|symmetry; apply (tsum_zero K HK)]. }
+      rewrite (tsum_swap K HK). cbv beta.
+      apply tsum_map_ext. intros s' _.
+      rewrite (tsum_map_ext K _ (fun x => mul K (cj (mentry K V a' s')) (if B x then G s s' x else zero)))
+        by (intros x _; apply if_mul).
+      rewrite (tsum_scale_l K HK). apply (sr_mul_comm K HK).
+    - (* right side *)
+      apply tsum_map_ext. intros s Hs. apply allbits_In in Hs. f_equal.
+      apply tsum_map_ext. intros s' Hs'. apply allbits_In in Hs'. f_equal.
+      unfold B, G.
+      rewrite (tsum_map_ext K _ (fun x => if beqb (sel fq x) a
+                                          then (fun y => g y (upd fq s' y)) (upd fq s x) else zero))
+        by (intros x _; cbv beta; now rewrite upd_upd_same).
+      rewrite (restrict_shift n fq (fun y => g y (upd fq s' y)) a s Hn Hq Ha Hs).
+      apply tsum_map_ext. intros y Hy. apply allbits_In in Hy.
+      rewrite (mentry_tab2 K) by (now rewrite ?upd_length). reflexivity.
+  Qed.
+
+  (* partial traces compose: tracing down to fq and then, inside fq, down to S (given by positions in
+     fq) is tracing down to S; S in any order, fq increasing *)
+  Lemma sel_sel fq S y : (forall q, In q S -> In q fq) ->
+    sel (map (fun q => C01.Model.index_of q fq) S) (sel fq y) = sel S y.
+  Proof.
+    intros HS. unfold sel at 1 3. rewrite map_map. apply map_ext_in. intros q Hq.
+    rewrite nth_sel by (apply index_of_lt; auto). now rewrite nth_index_of by auto.
+  Qed.
+
+  Lemma upd_upd_sub n fq S a' y : incr_from 0 fq -> (forall q, In q fq -> q < n) ->
+    (forall q, In q S -> In q fq) -> length y = n ->
+    upd fq (upd (map (fun q => C01.Model.index_of q fq) S) a' (sel fq y)) y = upd S a' y.
+  Proof.
+    intros Hfq Hq HS Hy.
+    apply bool_list_ext; [now rewrite !upd_length|]. intros i Hi. rewrite upd_length in Hi.
+    rewrite (nth_upd S a' y i Hi), (nth_upd fq _ y i Hi).
+    destruct (C01.Model.memb i fq) eqn:Mi.
+    - apply C01.Lib.memb_In in Mi.
+      rewrite nth_upd by (rewrite sel_length; apply index_of_lt; auto).
+      rewrite (memb_map_phi fq i S Mi HS), (index_of_map_phi fq i S Mi HS).
+      destruct (C01.Model.memb i S); [reflexivity|].
+      rewrite nth_sel by (apply index_of_lt; auto). now rewrite nth_index_of by auto.
+    - apply C01.Lib.memb_false in Mi.
+      destruct (C01.Model.memb i S) eqn:Ms; [|reflexivity].
+      apply C01.Lib.memb_In in Ms. exfalso. auto.
+  Qed.
+
+  Theorem reduced_reduced n fq S rho :
+    incr_from 0 fq -> (forall q, In q fq -> q < n) -> (forall q, In q S -> In q fq) -> wf_mat n rho ->
+    reduced K (length fq) (map (fun q => C01.Model.index_of q fq) S) (reduced K n fq rho)
+    = reduced K n S rho.
+  Proof.
+    intros Hfq Hq HS Hr.
+    rewrite (wf_tab2 K n rho Hr). generalize (mentry K rho). intros g.
+    unfold reduced at 1 3. rewrite map_length. apply tab2_ext. intros a a' Ha Ha'.
+    set (S' := map (fun q => C01.Model.index_of q fq) S).
+    rewrite (tsum_map_ext K _ (fun b => tsum (map (fun y =>
+        (fun b y => if beqb (sel fq y) b
+                    then (if beqb (sel S' b) a then g y (upd fq (upd S' a' b) y) else zero)
+                    else zero) b y) (allbits n)))).
+    2:{ intros b Hb. apply allbits_In in Hb. cbv beta.
+        destruct (beqb (sel S' b) a).
+        - unfold reduced. rewrite (mentry_tab2 K) by (now rewrite ?upd_length).
+          apply tsum_map_ext. intros y Hy. apply allbits_In in Hy.
+          destruct (beqb (sel fq y) b); [|reflexivity].
+          rewrite (mentry_tab2 K) by (now rewrite ?upd_length). reflexivity.
+        - symmetry. rewrite (tsum_map_ext K _ (fun _ => zero)); [apply (tsum_zero K HK)|].
+          intros y _. destruct (beqb (sel fq y) b); reflexivity. }
+    rewrite (tsum_swap K HK). cbv beta.
+    apply tsum_map_ext. intros y Hy. apply allbits_In in Hy.
+    rewrite (tsum_delta K HK (length fq)
+               (fun b => if beqb (sel S' b) a then g y (upd fq (upd S' a' b) y) else zero)
+               (sel fq y) (sel_length fq y)).
+    unfold S'. rewrite (sel_sel fq S y HS).
+    destruct (beqb (sel S y) a); [|reflexivity].
+    rewrite (mentry_tab2 K) by (now rewrite ?upd_length).
+    now rewrite (upd_upd_sub n fq S a' y Hfq Hq HS Hy).
+  Qed.
+End PtraceKept.
+
+(* ================================================================ the light-cone circuit as returned (re-indexed) *)
+Section LightConeReindexed.
+  Context {T : Type} (K : ops T) (cj : T -> T).
+  Hypothesis HK : semiring K.
+  Hypothesis HC : conj_ok K cj.
+  Variable n : nat.
+  Variable mg : Trace.gate -> C01.Model.gate (T:=T).
+
+  Lemma trun_dact_circ l : forall U rho, wf_mat n U -> wf_mat n rho ->
+    trun (dact K cj n mg) l (sandwich K cj n U rho)
+    = sandwich K cj n (fold_left (fun U g => mmul K (gate_op K n g) U) (map mg l) U) rho.
+  Proof.
+    induction l as [|g l IH]; intros U rho HU Hr; [reflexivity|]. simpl. unfold dact at 2.
+    rewrite <- (sandwich_mmul K cj HK HC n) by (auto using (gate_op_wf K)).
+    apply IH; auto. apply (mmul_wf K HK); auto using (gate_op_wf K).
+  Qed.
+
+  Lemma trun_dact_circ_op l rho : wf_mat n rho ->
+    trun (dact K cj n mg) l rho = sandwich K cj n (circ_op K n (map mg l)) rho.
+  Proof.
+    intros Hr. unfold circ_op. rewrite <- trun_dact_circ; auto using (midentity_wf K).
+    now rewrite (sandwich_identity K cj HK HC).
+  Qed.
+
+  (* cone = sorted final qubit set, kept' = the gates of the circuit Circuit.light_cone returns
+     (every kept gate re-indexed by qubit_map[q] = position of q in sorted(cone)), S' = the
+     requested qubits re-indexed the same way (any order, as given).  The reduced state on S' of
+     the returned |cone|-qubit circuit, started from the reduced initial state on the cone,
+     equals the reduced state on S of the full n-qubit circuit. *)
+  Theorem light_cone_reindexed_proof c S rho :
+    Forall (mvalid n mg gqs) c ->
+    (forall g, In g (lc_dropped c S) -> embeds_unitary K cj n mg g) ->
+    (forall q, In q S -> q < n) -> (forall g q, In g c -> In q (gqs g) -> q < n) -> wf_mat n rho ->
+    let cone := lc_cone c S in
+    let kept' := map (fun g => relabel cone (mg g)) (lc_kept c S) in
+    let S' := map (fun q => C01.Model.index_of q cone) S in
+    reduced K n S (trun (dact K cj n mg) c rho)
+    = reduced K (length cone) S' (sandwich K cj (length cone) (circ_op K (length cone) kept') (reduced K n cone rho)).
+  Proof.
+    intros Hv Hu HS Hc Hr cone kept' S'.
+    assert (Hcone : incr_from 0 cone) by (apply ssorted_incr_from; [apply lc_cone_sorted|intros; lia]).
+    assert (Hrange : forall q, In q cone -> q < n).
+    { intros q Hq. destruct (lc_cone_range c S q Hq) as [H|[g [H1 H2]]]; eauto. }
+    rewrite (light_cone_reduced_matrices_proof K cj HK n mg HC c S rho Hv Hu HS Hr).
+    rewrite trun_dact_circ_op by assumption.
+    rewrite (kept_op_is_embedded_cone_circuit_proof K HK n mg c S Hv HS Hc).
+    fold cone. fold kept'.
+    assert (HV : wf_mat (length cone) (circ_op K (length cone) kept')) by apply (circ_op_wf K HK).
+    rewrite <- (reduced_embed_kept K cj HK HC n cone _ rho (incr_from_NoDup 0 cone Hcone) Hrange HV Hr).
+    unfold S'. rewrite (reduced_reduced K HK n cone S); auto.
+    - intros q Hq. apply (lc_cone_S c S q Hq).
+    - apply (sandwich_wf K cj HK); auto. apply (embed_wf K).
+  Qed.
+End LightConeReindexed.
